@@ -301,18 +301,18 @@ func runSchedule(c Case, msgs [][]kit.Pt, sched []int) (obs []kit.Obs, gated boo
 	if c.Union {
 		prefix = "union"
 	}
-	return runGated(c.script(), prefix, kapacitor.StreamTask, len(msgs), sched, func(env *kit.Env, id string, p, i int) error {
+	return runGated(c.script(), prefix, kapacitor.StreamTask, len(msgs), sched, func(env *kit.Env, et *kapacitor.ExecutingTask, p, i int) error {
 		return env.TM.WriteKapacitorPoint(msgs[p][i].Msg())
 	})
 }
 
 // runGated starts the task, feeds the parents' messages one at a time in the order of sched
-// (feed(env, taskID, p, i) delivers the i-th message of parent p) and after each one waits until
+// (feed(env, et, p, i) delivers the i-th message of parent p) and after each one waits until
 // the node whose name starts with prefix (join/union) has collected everything fed so far; then
 // the inputs are closed and the task is waited for. It returns what the sink 'J' observed. Shared
 // by all units (stream: points through the TaskMaster; batch: batches through the task's batch
 // collectors, closed by closeInputs).
-func runGated(script, prefix string, tt kapacitor.TaskType, np int, sched []int, feed func(env *kit.Env, id string, p, i int) error) (obs []kit.Obs, gated bool, err error) {
+func runGated(script, prefix string, tt kapacitor.TaskType, np int, sched []int, feed func(env *kit.Env, et *kapacitor.ExecutingTask, p, i int) error) (obs []kit.Obs, gated bool, err error) {
 	env, err := kit.NewEnv(kit.EnvOpts{})
 	if err != nil {
 		return nil, false, err
@@ -329,7 +329,7 @@ func runGated(script, prefix string, tt kapacitor.TaskType, np int, sched []int,
 	for _, p := range sched {
 		i := next[p]
 		next[p]++
-		if err := feed(env, id, p, i); err != nil {
+		if err := feed(env, et, p, i); err != nil {
 			return nil, false, err
 		}
 		fed++
